@@ -5,6 +5,8 @@ import (
 	"verif/vlib"
 
 	_ "verif/checks/autosafe"
+	_ "verif/checks/extexit"
+	_ "verif/checks/redirect"
 )
 
 func main() { vlib.Main() }
